@@ -453,8 +453,8 @@ func (r *Reg) manifest(req *http.Request) (*http.Response, error) {
 	}
 	a := &attemptState{idx: r.started, served: map[int]served{}, keys: map[string]int{}}
 	r.started++
-	if a.idx < len(r.c.Attempts) && !r.honest {
-		a.script = &r.c.Attempts[a.idx]
+	if len(r.c.Attempts) > 0 && a.idx < r.c.scripted() && !r.honest {
+		a.script = r.c.scriptAt(a.idx)
 	}
 	v := 0
 	if n := len(r.c.Attempts); n > 0 {
